@@ -4,7 +4,7 @@
 // them that is neither under contract nor pinned by name still makes this unit undecided, which sends the check to the
 // property's bounded sweep of the real code
 //@pinfile file=cfgrammar/src/lib/newlinecache.rs sha=2a43dcdddc3cbcac
-//@pinfile file=lrlex/src/lib/lexer.rs sha=448f544bab49b763
+//@pinfile file=lrlex/src/lib/lexer.rs sha=fd89bb00760c980b
 //@pinfile file=lrpar/src/lib/parser.rs sha=fb1aabfb1f1a4952
 //@pinfile file=lrpar/src/lib/diagnostics.rs sha=57a404237fbb1862
 //@use prelude/tail.rs
